@@ -104,10 +104,16 @@ fn run_library(p: &Params, in_path: &str, alt: Option<&str>, out: &str, out_o: &
         match sub.as_str() {
             "oligo" => {
                 let mut c = composition::oligo::OligoComputer::new(in_path, out, k);
-                c.set_threads(1);
-                c.set_norm(!pbool(&p, "counts"));
-                c.set_header(pbool(&p, "header"));
-                c.set_delim(delim_of(&pstr(&p, "preset")).to_string());
+                // the same settings, made in a seeded order: the result must
+                // not depend on the order of independent setters
+                for i in setter_order(4, pu64(&p, "order")) {
+                    match i {
+                        0 => c.set_threads(1),
+                        1 => c.set_norm(!pbool(&p, "counts")),
+                        2 => c.set_header(pbool(&p, "header")),
+                        _ => c.set_delim(delim_of(&pstr(&p, "preset")).to_string()),
+                    }
+                }
                 c.vectorise()
             }
             "cgr" => {
@@ -124,12 +130,19 @@ fn run_library(p: &Params, in_path: &str, alt: Option<&str>, out: &str, out_o: &
             "cov" => {
                 std::fs::create_dir_all(&out).map_err(|e| e.to_string())?;
                 let mut c = coverage::CovComputer::new(in_path, out, k, pu64(&p, "bin_size") as usize, pu64(&p, "bin_count") as usize);
-                c.set_threads(1);
-                c.set_norm(!pbool(&p, "counts"));
-                c.set_delim(delim_of(&pstr(&p, "preset")).to_string());
-                c.set_max_memory(pu64(&p, "memory") as f64);
-                if let Some(a) = alt {
-                    c.set_kmer_path(a);
+                let mut alt = alt;
+                for i in setter_order(5, pu64(&p, "order")) {
+                    match i {
+                        0 => c.set_threads(1),
+                        1 => c.set_norm(!pbool(&p, "counts")),
+                        2 => c.set_delim(delim_of(&pstr(&p, "preset")).to_string()),
+                        3 => c.set_max_memory(pu64(&p, "memory") as f64),
+                        _ => {
+                            if let Some(a) = alt.take() {
+                                c.set_kmer_path(a);
+                            }
+                        }
+                    }
                 }
                 c.build_table()?;
                 c.compute_coverages();
@@ -281,6 +294,8 @@ impl Engine for C15 {
                 "stdin" => stdin,
                 "invalid" => invalid,
                 "relation" => rng.chance(1, 3),
+                "relation_kind" => rng.usize(0, 2),
+                "order" => if rng.chance(1, 2) { 0 } else { rng.range(1, 1 << 40) },
             },
             extra,
         }
@@ -419,7 +434,85 @@ impl Engine for C15 {
             out.probe("alt_input", 1);
         }
         // ---- related command lines
-        if pbool(p, "relation") {
+        let rk = pu64(p, "relation_kind");
+        if pbool(p, "relation") && rk >= 1 && (sub == "oligo" || sub == "cov") {
+            let mut q = p.clone();
+            let suffix = if sub == "cov" { "/kmers.vectors" } else { "" };
+            let o2 = path_str(&dir.join("cli_out3"));
+            if rk == 1 || sub == "cov" {
+                // the presets change only the delimiter
+                let other = match pstr(p, "preset").as_str() {
+                    "csv" => "tsv",
+                    "tsv" => "spc",
+                    _ => "csv",
+                };
+                q.insert(s("preset"), serde_json::json!(other));
+                let b2 = build_argv(&q, &in_cli, alt.as_deref(), &o2);
+                let r2 = run_cli(b2.argv.clone(), stdin_bytes(stdin), &case.sched, &case.io, None, auto, steps);
+                out.absorb(&r2, false);
+                if !matches!(r2.value, Ok(Ok(CliEnd::Returned))) {
+                    out.fail("relation_run", format!("the related command line failed; argv {:?}", &b2.argv[1..]));
+                    return out;
+                }
+                let fa = std::fs::read(format!("{cli_out}{suffix}")).unwrap_or_default();
+                let fb = std::fs::read(format!("{o2}{suffix}")).unwrap_or_default();
+                let (d1, d2) = (delim_of(&pstr(p, "preset")).as_bytes()[0], delim_of(other).as_bytes()[0]);
+                let mapped: Vec<u8> = fa.iter().map(|&c| if c == d1 { d2 } else { c }).collect();
+                if mapped != fb || fa.contains(&d2) {
+                    out.fail(
+                        "preset_changes_more_than_delimiter",
+                        format!(
+                            "output with -p {} is not the output with -p {} with the delimiter exchanged (first difference at byte {}); argv {:?}",
+                            other,
+                            pstr(p, "preset"),
+                            super::c05::first_diff(&mapped, &fb),
+                            &b.argv[1..]
+                        ),
+                    );
+                    return out;
+                }
+                out.probe("preset_relation_checked", 1);
+            } else {
+                // the header flag only adds the column line
+                q.insert(s("header"), serde_json::json!(!pbool(p, "header")));
+                let b2 = build_argv(&q, &in_cli, alt.as_deref(), &o2);
+                let r2 = run_cli(b2.argv.clone(), stdin_bytes(stdin), &case.sched, &case.io, None, auto, steps);
+                out.absorb(&r2, false);
+                if !matches!(r2.value, Ok(Ok(CliEnd::Returned))) {
+                    out.fail("relation_run", format!("the related command line failed; argv {:?}", &b2.argv[1..]));
+                    return out;
+                }
+                let fa = std::fs::read(&cli_out).unwrap_or_default();
+                let fb = std::fs::read(&o2).unwrap_or_default();
+                let (with, without) = if pbool(p, "header") { (fa, fb) } else { (fb, fa) };
+                let d = delim_of(&pstr(p, "preset")).as_bytes()[0];
+                let ok = match super::c05::split_first_line(&with) {
+                    None => false,
+                    Some((h, rest)) => {
+                        let cols_h = h.split(|&c| c == d).count();
+                        let cols_r = without
+                            .split(|&c| c == b'\n')
+                            .next()
+                            .map(|l| l.split(|&c| c == d).count())
+                            .unwrap_or(0);
+                        rest == without.as_slice()
+                            && (without.is_empty() || cols_h == cols_r)
+                            && h.split(|&c| c == d).all(|f| f.len() == pu64(p, "k") as usize && f.iter().all(|c| b"ACGT".contains(c)))
+                    }
+                };
+                if !ok {
+                    out.fail(
+                        "header_changes_more_than_one_line",
+                        format!(
+                            "output with -H is not one column line (k-mers separated by the preset's delimiter) followed by the output without -H; argv {:?}",
+                            &b.argv[1..]
+                        ),
+                    );
+                    return out;
+                }
+                out.probe("header_relation_checked", 1);
+            }
+        } else if pbool(p, "relation") {
             let mut q = p.clone();
             match sub.as_str() {
                 "oligo" | "cov" | "kcgr" => {
@@ -527,6 +620,7 @@ impl Engine for C15 {
             "out_of_range_case", "refused_by_parser", "refused_by_cli",
             "threads_option_vs_one_thread", "stdin_input", "alt_input",
             "counts_vs_default_checked", "acgt_vs_numeric_checked",
+            "preset_relation_checked", "header_relation_checked",
         ]
     }
 
